@@ -145,8 +145,8 @@ example :
       [⟨"acc", "0.5", some 5, some 10⟩, ⟨"loss", "x", none, some 11⟩, ⟨"acc", "0.7", some 7, some 9⟩,
        ⟨"acc", "0.50", some 5, some 10⟩, ⟨"other", "1", some 1, none⟩]
       ["acc", "loss", "acc", "f1"]
-    = some [⟨"acc", "0.5", "0.7", "0.50", some 5, some 7, some 10⟩,
-            ⟨"loss", "unavailable", "unavailable", "x", none, none, some 11⟩,
-            ⟨"f1", "unavailable", "unavailable", "unavailable", none, none, none⟩] := by decide
+    = some [⟨"acc", "0.5", "0.7", "0.50", some 5, some 7, some 10, some 5⟩,
+            ⟨"loss", "unavailable", "unavailable", "x", none, none, some 11, none⟩,
+            ⟨"f1", "unavailable", "unavailable", "unavailable", none, none, none, none⟩] := by decide
 
 end Katib.Metrics
